@@ -38,6 +38,7 @@ func init() {
 			{ID: "R13p", Floor: 1, Doc: "a full inspection accepts valid CIDv0 sections: the rebuilt CID has the section's CID version (= R02s)", Run: ruleR02s},
 			{ID: "R13q", Floor: 1, Doc: "the payload Inspect walks is the one the header bounds: the three range checks of Header.ReadFrom, DataSize as a positive int64 (= R09e)", Run: ruleR09e},
 			{ID: "R13s", Floor: 1, Doc: "car inspect renders roots with Cid.String(), which every CID has (a fixed multibase refuses CIDv0)", Run: ruleR13s},
+			{ID: "R13t", Floor: 1, Doc: "of the index Inspect reads the codec and nothing else: it builds and loads no index (index.New, index.ReadFrom, Unmarshal), so an inspection succeeds wherever the scan succeeds and the codec prefix can be read — whether this build knows the codec is not asked", Run: ruleR13t},
 		},
 	})
 }
